@@ -91,22 +91,25 @@ def run(chk):
         gen_schema.add_can_impls(chk.rng, desc)
         text = gen_schema.render(desc)
         fcp = serde_run.parse(text).unwrap()
-        sterm = to_coq.schema(fcp)
+        ref = serde_run.parse(text).unwrap()     # expectations are read off a parse of their own, never off the object handed to the encoder
+        sterm = to_coq.schema(ref)
         for unroll in (False, True):
-            hist = [chk.rng.choice(fcp.impls) for _ in range(chk.rng.randint(1, 8))]
+            idx = [chk.rng.randrange(len(fcp.impls)) for _ in range(chk.rng.randint(1, 8))]
+            hist, ref_hist = [fcp.impls[i] for i in idx], [ref.impls[i] for i in idx]
+            hterm = clist(to_coq.impl(im) for im in ref_hist)
             res = run_history(fcp, unroll, hist)
             obs = clist("None" if r is None else f"(Some {clist(to_coq.opiece(p) for p in r)})" for r, _ in res)
-            cases.append(cpair(sterm, cbool(unroll), clist(to_coq.impl(im) for im in hist), obs))
+            cases.append(cpair(sterm, cbool(unroll), hterm, obs))
             meta.append((text, unroll, [im.name + "/" + im.protocol for im in hist]))
             npieces = max([len(r) for r, _ in res if r is not None] + [0])
             chk.count((text, unroll, tuple(meta[-1][2])), nontrivial=npieces >= 2,
                       sample={"schema": text, "unroll": unroll, "history": meta[-1][2],
                               "first_result": None if res[0][0] is None else [(p.name, p.bitstart, p.bitlength) for p in res[0][0]]})
             chk.hist("pieces", min(npieces, 12)); chk.hist("raises", sum(1 for r, _ in res if r is None))
-            for im, (r, e) in zip(hist, res):
+            for im, rim, (r, e) in zip(hist, ref_hist, res):
                 if r is None:
                     continue
-                why, known = check_tiling(fcp, im, r)
+                why, known = check_tiling(ref, rim, r)
                 if known and chk.find_known("enum-width"):
                     chk.known_finding("enum-width", "an enum leaf is laid out on 2^ceil(log2(packed size)) bits instead of its packed size (encoding.py:_get_type_length)")
                 elif known:
